@@ -101,6 +101,7 @@ func (t *template) RenderReader(ctx context.Context, w io.Writer, r io.Reader) e
 		Stack:      t.stack.Copy(),
 		Processors: t.vue.nodeProcessors,
 	})
+	vueCtx.seenInline = true
 
 	// Buffer the output to ensure w is unmodified on error
 	buf := &bytes.Buffer{}
